@@ -396,6 +396,66 @@ def fold_decision_table(ctx, m):
     return True
 
 
+
+IDENTITY_SOURCES = ('kmip/services/server/auth/slugs.py', 'kmip/services/server/auth/utils.py', 'kmip/services/server/auth/api.py', 'kmip/services/server/session.py')
+IDENTITY_ENGINE_METHODS = ('process_request', '_verify_credential', '_is_allowed_by_operation_policy', 'is_allowed', 'get_relevant_policy_section')
+
+
+def check_group_information_unchanged(ctx, m):
+    """C03.R14: "no group information" (None) and "member of no group" ([]) are never folded into one another on the way to the decision."""
+    from ..astutil import all_functions
+    ctx.rule('C03.R14', 'between the identity sources (SLUGS connector, certificate helpers, KmipSession.authenticate) and the access decision nothing replaces a falsy value by None or [None] (or None by a list) under a truthiness / emptiness test, as `if not groups: groups = None`, `groups or None`, `x if x else None` do: the decision table treats the identity (user, None) - no group information, the preset section applies - and (user, []) - member of no group, nothing applies - differently, and the only legitimate test is the `is None` test of the decision function itself')
+    fns = []
+    for rel in IDENTITY_SOURCES:
+        for qn, fn, cls in all_functions(ctx.src.tree(rel)):
+            fns.append((rel, qn, fn))
+    for name in IDENTITY_ENGINE_METHODS:
+        if name in m.methods:
+            fns.append((ENGINE, 'KmipEngine.' + name, m.methods[name]))
+    ctx.count('identity_path_functions', len(fns), 12)
+
+    def noneish(e):
+        return (isinstance(e, ast.Constant) and e.value is None) or (isinstance(e, (ast.List, ast.Tuple)) and len(e.elts) == 1 and isinstance(e.elts[0], ast.Constant) and e.elts[0].value is None)
+
+    def emptiness(t):
+        """(text of X, True when the test holds for a falsy X) for a truthiness / emptiness test of X"""
+        if isinstance(t, ast.UnaryOp) and isinstance(t.op, ast.Not):
+            r = emptiness(t.operand)
+            return (r[0], not r[1]) if r else None
+        if isinstance(t, (ast.Name, ast.Attribute, ast.Subscript)):
+            return U(t), False
+        if isinstance(t, ast.Call) and call_name(t) == 'len' and len(t.args) == 1:
+            return U(t.args[0]), False
+        p = cmp_parts(t)
+        if p and p[1] in ('Eq', 'NotEq', 'Gt', 'Lt', 'GtE', 'LtE'):
+            a, b = p[0], p[2]
+            if isinstance(a, ast.Call) and call_name(a) == 'len' and len(a.args) == 1 and isinstance(b, ast.Constant) and b.value in (0, 1):
+                return U(a.args[0]), p[1] in ('Eq', 'Lt', 'LtE')
+            if isinstance(b, (ast.List, ast.Tuple)) and not b.elts:
+                return U(a), p[1] == 'Eq'
+        return None
+    for rel, qn, fn in fns:
+        for n in walk_local(fn):
+            bad = None
+            if isinstance(n, ast.If):
+                e = emptiness(n.test)
+                if e:
+                    arm = n.body if e[1] else n.orelse
+                    for st in arm:
+                        if isinstance(st, ast.Assign) and any(U(t_) == e[0] for t_ in st.targets) and noneish(st.value):
+                            bad = st
+            elif isinstance(n, ast.BoolOp) and isinstance(n.op, ast.Or) and noneish(n.values[-1]) and len(n.values) == 2:
+                bad = n
+            elif isinstance(n, ast.IfExp):
+                e = emptiness(n.test)
+                if e and noneish(n.orelse if not e[1] else n.body) and U(n.body if not e[1] else n.orelse) == e[0]:
+                    bad = n
+            if bad is not None:
+                ctx.fail('C03.R14', '%s|falsy value replaced by None: %s' % (qn, ' '.join(U(bad).split())[:60]), '%s:%s %s' % (rel, bad.lineno, qn),
+                         '%s turns a falsy value into None / [None]: an empty group list ("member of no group", nothing granted) reaches the decision as None ("no group information"), for which the preset section of the policy applies' % ' '.join(U(bad).split())[:80])
+    if not any(f.rule == 'C03.R14' for f in ctx.findings):
+        ctx.ok('C03.R14', 'identity sources and decision functions', '%d functions: no falsy-to-None normalisation' % len(fns))
+
 def run(ctx):
     src = ctx.src
     m = EngineModel(src)
@@ -935,6 +995,7 @@ def run(ctx):
               'returned identifiers are str(x.unique_identifier) of elements derived from the access-filtered list only',
               'Locate can return identifiers that do not come from the access-filtered list')
     check_policy_table_freshness(ctx)
+    check_group_information_unchanged(ctx, m)
     # ---------------- R13 (lifted from C10)
     ctx.rule('C03.R13', "the identity an access decision is taken under is the requester's: the request prologue that stores the client identity and every decision that reads it run inside one critical section (lifted from C10.R1/R2) - otherwise a concurrently served session's header replaces the identity between the prologue and the batch, and objects are handed to (or created for) the wrong user")
     from ..report import Ctx as _LCtx, run_lifted as _run_lifted
